@@ -6,7 +6,7 @@ ENTRY = dict(
     technique="Lean 4 theorems over all frames / streams / configurations (envelope model shared with C01, byte-level network-info and "
               "program-version codecs, PyFrame equality model) + correspondence with Frame.bytes -> FrameReader.read -> fields -> .bytes, "
               "X(data=d).message -> X(message=...).data, and Python ==/!= on generated frame pairs",
-    prop_modules=["C03", "C03Object", "TieFrameObj", "TieFrameObjRun", "TieNetVersion"],
+    prop_modules=["C03", "C03Object", "TieFrameObj", "TieFrameObjRun", "TieNetVersion", "TieNetInfo", "TieNetInfoEnc", "TieNetVersionEnc"],
     level_text=(
         "Proof: `C03.read_encode` shows for ALL frames that pass the reader's gates (<= 1000 bytes, addressed to the library or broadcast, "
         "known sender and kind) and ALL trailing bytes that reading the serialised bytes delivers exactly the same kind, addressing, versions "
@@ -27,7 +27,7 @@ ENTRY = dict(
                "(`Frame_message_eq`, `Frame_data_eq`, `Frame_*_set_eq`, `Frame_length_eq`, `Frame_header_eq`, `Frame_bytes_eq`, `Frame_step_sim`: ONE operation from a well-formed state); Props/TieFrameObjRun.lean: `Frame_run_sim` over operation LISTS "
                "(= `Obj.run` up to and including the first raising operation; side condition: data values set are not `None`) and, on the translated code, `F5_one_sided_fill_code` (reading `bytes` with success leaves an instance different from the one before; `message` leaves the same instance as `bytes`) and "
                "`fresh_same_args_code` (the translated constructor stores exactly its arguments: two constructions of one kind agree iff `pyEq` of the model frames holds). `Frame.__eq__` itself and `assign_to` are NOT translated: C03's equality theorems (`eq_fresh_iff`, `eq_after_*_fill`, `eq_preserved`, `pyEq_iff`) stay theorems about the hand-written `pyEq`, tied to Python `==` by correspondence only. "
-               "Props/TieNetVersion.lean: translated `ProgramVersionStructure.decode` = `Version.decode` for all messages and offsets (no prior data dict), so the decode half of `version_roundtrip` speaks about the source; `ProgramVersionStructure.encode`, `NetworkInfoStructure.encode / decode` are translated and validated against CPython (pycode_types group net) — no Tie theorem yet, `net_roundtrip` stays tied differentially. "
+               "Props/TieNetVersion.lean + TieNetVersionEnc.lean + TieNetInfo.lean + TieNetInfoEnc.lean (round 8, W7c/W7d): the translated source text of all four structure methods equals the byte-level model — `ProgramVersionStructure_decode_eq` (= `Version.decode`: all messages, all offsets, no prior data dict), `ProgramVersionStructure_encode_eq` (= `Version.encode`: every data dict holding the `VersionInfo` instance of a model value — software text 'a.b.c' of any three naturals, tag / id / signature byte strings of any length, any structure version — and every natural sender; `int(str(n)) = n` and the `split('.', 2)` are proved, not assumed; a dict without the key: the defaults with SOFTWARE_VERSION as a PARAMETER 'a.b.c', the run-time value is only passed by the CPython validation), `NetworkInfoStructure_decode_eq` (= `Net.decodeAt`: all messages, all offsets >= 0, no prior data dict; which byte each status / encryption / signal / SSID field is read from, the returned offset, and the exception CLASS on every rejected message — `decodeErr`, `decodeErr_by_length`), `NetworkInfoStructure_encode_eq` / `_encode_default` (= `Net.encode`: every data dict holding the `NetworkInfo` instance of a model value with an SSID TEXT whose UTF-8 bytes are the model's, and the dict without the key). Composed on the translated code: `net_roundtrip_code`, `version_roundtrip_code` (C03: whatever the translated encode returns, the translated decode returns an equal instance; hypotheses: encryption kind in the table, resp. tag / id / signature of exactly 2 / 2 / 3 bytes), `net_layout_code`, `version_layout_code` (C02 offsets of the bytes the translated encode returns), `encode_ok_iff` (the network encoder succeeds iff the SSID has <= 255 bytes). Excluded: negative offsets; a prior `data` dict; SSID bytes that are not valid UTF-8 (both sides `unsupported`); field values of other Python types (signal outside 0..255, address texts other than inet_ntoa's, software texts that are not three decimal numbers, negative / non-int sender) — these inputs are covered by the CPython validation (group net) and the correspondence harness only. "
                "Excluded by the hypotheses: codecs that read anything of the instance but the sender (`frame.handler`: RegulatorData, ThermostatParameters), frame-type codes >= 256, non-empty `**kwargs` at construction, the state after a raised exception. soft mode: CODE-TIE-BROKEN. "
                "Trusted: Lean kernel; the remaining model <-> code ties are differential; text forms of IPv4 addresses, SSIDs (UTF-8) and 'a.b.c' are CPython's. "
                "Frame.__eq__ compares the lazy caches: a frame whose .bytes/.data was read differs from a fresh frame built from the same "
@@ -36,8 +36,8 @@ ENTRY = dict(
         "serialise -> parse for EVERY serialisable frame, also those the library transmits itself (recipient 0x45) and any kind / sender / size up to the 16-bit length": "theorem (C03.parse_encode over the gate-free Model/ParseEnvelope.parseEnvelope; read_encode is the same behind the reader's gates)",
         "serialise -> read gives the same kind, addressing, versions, payload (all frames passing the gates, any trailing bytes)": "theorem + correspondence (reader model = FrameReader.read, shared with C01)",
         "read -> re-serialise reproduces the consumed bytes (all streams, last byte 0x16)": "theorem + correspondence",
-        "network information data -> message -> data (all configurations, flags independent)": "theorem + correspondence (codec model = network_info.py)",
-        "program version data -> message -> data": "theorem + correspondence",
+        "network information data -> message -> data (all configurations, flags independent)": "theorem (C03.net_roundtrip on the model; TieNetInfoEnc.net_roundtrip_code on the translated NetworkInfoStructure.encode / decode: every instance `netV n (.str s)` with encryption kind 0..4, SSID text of <= 255 UTF-8 bytes, decode at offset 1 without a prior data dict) + correspondence",
+        "program version data -> message -> data": "theorem (C03.version_roundtrip on the model; TieNetVersionEnc.version_roundtrip_code on the translated ProgramVersionStructure.encode / decode: software 'a.b.c' of three naturals < 65536, structure version < 256, natural sender < 256, tag / id / signature of exactly 2 / 2 / 3 bytes, any offset, no prior data dict) + correspondence",
         "encryption kinds accepted by the decoder are exactly 0..4": "table",
         "equality of used frame objects (known finding F5 stated exactly)": "theorem (C03Object) + correspondence",
         "object -> FrameWriter -> wire -> FrameReader for whole frame sequences": "theorem (written_stream_read_back) + correspondence (2-6 frames serialised one after the other, frames for other devices -- bodies with start delimiters, header-shaped runs, embedded whole frames -- in between, read back with the real FrameReader: exactly the frames addressed to the library / broadcast come back, in order, same class / bytes / ==)",
